@@ -10,8 +10,9 @@ import os
 import sys
 
 sys.path.insert(0, os.path.dirname(os.path.dirname(os.path.abspath(__file__))))
-if '/repo' not in sys.path:
-    sys.path.insert(1, '/repo')
+_repo = os.environ.get('VK_REPO', '/repo')
+if _repo not in sys.path:
+    sys.path.insert(1, _repo)
 
 
 def main(path):
